@@ -5,6 +5,8 @@ import (
 	"sort"
 	"sync"
 
+	"github.com/tormoder/fit"
+
 	"verifharness/lib"
 	"verifharness/ref"
 )
@@ -20,13 +22,16 @@ func registerC01() {
 			"(header, file_id, the one-field definition, one matching data record; two more data patterns, all-0xFF and NUL-rich, if the definition was accepted) is decoded under " +
 			"a panic/hang guard; every rejected definition with a known base type is retried on a slot that already holds the same field definition for an unknown message; every 61st stream also goes through all six entry points with 1-byte and greedy chunkers. Family mutants: PRNG structured mutations (bit/byte flips, " +
 			"splices, truncation, extension, header edits, definition edits, record-header edits, size lies; CRC recomputed for half) of device files and model streams, each fed to the six " +
-			"entry points under three chunkers. A case is one stream; in family fielddefs each is distinct by construction and counted non-trivial because it reaches the definition validator; " +
+			"entry points under three chunkers. Family multidefs: PRNG streams of 1-4 definitions with 1-8 ARBITRARY field definitions each (any field number, size, base byte; " +
+			"developer-field lists; known and unknown messages; occasionally an illegal arch byte) followed by data records of exactly the defined sizes (some behind compressed headers), " +
+			"framed with correct CRCs, decoded with and without options (formatting logger, unknown lists) under two chunkers. A case is one stream; in family fielddefs each is distinct by construction and counted non-trivial because it reaches the definition validator; " +
 			"mutants are distinct by digest",
 		Assume:        []string{"a hang is decided logically (more than 10000 reads after the input ended) or by the doubly-confirmed wall-clock watchdog"},
 		MinNontrivial: 1000000,
 		Families: []lib.Family{
 			{Name: "fielddefs", N: func(t string) uint64 { return uint64(len(c01Pairs(t))) }, Run: c01FieldDefs},
 			{Name: "mutants", N: func(t string) uint64 { return tierN(t, 60000, 3000000) }, Run: c01Mutant},
+			{Name: "multidefs", N: func(t string) uint64 { return tierN(t, 150000, 5000000) }, Run: c01MultiDefs},
 		},
 		Exhaustive: func(t string) bool { return true },
 		Finish: func(c *lib.Ctx, cov map[string]interface{}) {
@@ -408,4 +413,110 @@ func c01Mutant(c *lib.Ctx, idx uint64) {
 	_ = okAny
 	c.Nontrivial(b)
 	c.Sample("mutant", 2, map[string]interface{}{"bytes": len(b), "hex_prefix": fmt.Sprintf("%x", b[:minInt(len(b), 48)])})
+}
+
+var knownBaseCodes = []byte{0x00, 0x01, 0x02, 0x83, 0x84, 0x85, 0x86, 0x07, 0x88, 0x89, 0x0A, 0x8B, 0x8C, 0x0D, 0x8E, 0x8F, 0x90}
+
+func c01MultiDefs(c *lib.Ctx, idx uint64) {
+	rng := lib.NewRand("C01.multidefs", idx)
+	known := lib.KnownMesgs()
+	p := &ref.Plan{HeaderSize: 14, Proto: 0x20, ProfVer: 2115}
+	if rng.Chance(1, 4) {
+		p.HeaderSize = 12
+	}
+	ft := lib.FileTypes[idx%uint64(len(lib.FileTypes))].Type
+	p.Records = append(p.Records,
+		ref.Record{IsDef: true, Local: 0, Global: 0, Fields: []ref.FieldDef{{Num: 0, Size: 1, Base: 0}}},
+		ref.Record{Local: 0, Data: [][]byte{{ft}}})
+	var defs [16]*ref.Record
+	nd := 1 + rng.Intn(4)
+	for d := 0; d < nd; d++ {
+		r := ref.Record{IsDef: true, Local: byte(rng.Intn(5)), Arch: byte(rng.Intn(2))}
+		if rng.Chance(1, 50) {
+			r.Arch = rng.Byte()
+		}
+		if rng.Chance(7, 10) {
+			r.Global = known[rng.Intn(len(known))]
+		} else {
+			r.Global = uint16(rng.U64())
+		}
+		nf := 1 + rng.Intn(8)
+		if rng.Chance(1, 20) {
+			nf = 0
+		}
+		for k := 0; k < nf; k++ {
+			fd := ref.FieldDef{Num: rng.Byte(), Base: knownBaseCodes[rng.Intn(len(knownBaseCodes))]}
+			if rng.Chance(1, 2) {
+				// a field number the message really has
+				if fs := lib.Profile().ByMesg[r.Global]; len(fs) > 0 {
+					fd.Num = fs[rng.Intn(len(fs))].Num
+				}
+			}
+			if rng.Chance(1, 8) {
+				fd.Base = rng.Byte()
+			}
+			switch rng.Intn(4) {
+			case 0:
+				fd.Size = byte(rng.Intn(9))
+			case 1:
+				fd.Size = byte(rng.Intn(256))
+			default:
+				if bt, ok := ref.BaseByCode(fd.Base); ok {
+					fd.Size = byte(bt.Size * (1 + rng.Intn(4)))
+				} else {
+					fd.Size = byte(rng.Intn(16))
+				}
+			}
+			r.Fields = append(r.Fields, fd)
+		}
+		if rng.Chance(1, 4) {
+			r.HasDev = true
+			for k := rng.Intn(4); k > 0; k-- {
+				r.Dev = append(r.Dev, ref.DevDef{Num: rng.Byte(), Size: byte(rng.Intn(40)), Idx: rng.Byte()})
+			}
+		}
+		p.Records = append(p.Records, r)
+		cp := r
+		defs[r.Local] = &cp
+		for n := rng.Intn(4); n > 0; n-- {
+			dr := ref.Record{Local: r.Local}
+			if r.Local < 4 && rng.Chance(1, 3) {
+				dr.Compressed = true
+				dr.TimeOffset = byte(rng.Intn(32))
+			}
+			for _, f := range r.Fields {
+				dr.Data = append(dr.Data, rng.Bytes(int(f.Size)))
+			}
+			for _, f := range r.Dev {
+				dr.Data = append(dr.Data, rng.Bytes(int(f.Size)))
+			}
+			p.Records = append(p.Records, dr)
+		}
+	}
+	b := p.Bytes()
+	c.SetInflight(b)
+	ok := 0
+	for variant := 0; variant < 3; variant++ {
+		ch := []lib.Chunker{{Kind: "whole"}, {Kind: "one"}, {Kind: "rand", Size: 5, R: rng, Zero: true}}[variant]
+		var opts []fit.DecodeOption
+		if variant > 0 {
+			opts = []fit.DecodeOption{fit.WithLogger(&countingLogger{}), fit.WithUnknownFields(), fit.WithUnknownMessages()}
+		}
+		var res lib.CallResult
+		o := lib.Guard(func() { res = lib.Call("Decode", lib.NewReader(b, ch), opts...) })
+		c.Eval()
+		if o.Panicked || o.Hang {
+			c.Violation(b, "Decode (%s reads, options %v) panicked/hung (hang=%v) on a stream of arbitrary multi-field definitions: %s\n%s", ch, variant > 0, o.Hang, o.Panic, o.Stack)
+			return
+		}
+		if res.Err == nil {
+			ok++
+		}
+	}
+	if ok > 0 {
+		c.Count("multidef_streams_accepted", 1)
+	} else {
+		c.Count("multidef_streams_rejected", 1)
+	}
+	c.Nontrivial(b)
 }
